@@ -559,7 +559,18 @@ func (g *Gen) DKGTx(a *app.ShutterApp) ([]byte, string) {
 	if !found {
 		return g.TransitionTx(a)
 	}
-	d := a.DKGMap[newest]
+	return g.dkgTxFor(a, newest, newest)
+}
+
+// dkgTxFor: a DKG message for eon `eon` sent by a member of the config of eon `cfgEon` (the two
+// differ only when a late message is addressed to an old eon).
+func (g *Gen) dkgTxFor(a *app.ShutterApp, cfgEon, eon uint64) ([]byte, string) {
+	r := g.R
+	newest := eon
+	d := a.DKGMap[cfgEon]
+	if d == nil {
+		return g.TransitionTx(a)
+	}
 	var members []int
 	for i, ad := range g.U.Addrs {
 		if d.Config.IsKeyper(ad) {
@@ -615,9 +626,69 @@ func (g *Gen) DKGTx(a *app.ShutterApp) ([]byte, string) {
 		m = shmsg.NewDKGResult(newest, r.Chance(1, 3))
 		note = "dkg result"
 	}
+	if cfgEon != eon {
+		note += fmt.Sprintf(" (late, eon %d)", eon)
+	}
 	raw := SignTx(g.U.Keys[key], g.G.ChainID, g.nextNonce(), m)
 	g.sent = append(g.sent, raw)
 	return raw, fmt.Sprintf("%s by key %d", note, key)
+}
+
+// ManyEonsHistory: one config is voted in and its key generation fails `eons-1` times in a row
+// (threshold many members vote "failed", the application starts the next eon with the same
+// config); between the restarts and in two final blocks members send late but legal DKG messages
+// addressed to EVERY eon started so far, the oldest included. The application keeps every DKG
+// instance for ever, so each of them is accepted or refused by the rules of its own eon.
+func (g *Gen) ManyEonsHistory(eons int) (History, []Resp, *app.ShutterApp) {
+	n, t := 3+g.R.Intn(2), 2
+	ge := Genesis{Threshold: 2, ChainID: "verif-chain", ForkNil: true, Validators: []KV{{K: make([]byte, 32), P: 10}}}
+	for i := 0; i < n; i++ {
+		ge.Keypers = append(ge.Keypers, g.U.Addrs[i].Bytes())
+	}
+	g.G = ge
+	a, err := NewApp(ge)
+	if err != nil {
+		panic(err)
+	}
+	h := History{Genesis: ge}
+	var rs []Resp
+	do := func(c Call) {
+		h.Calls = append(h.Calls, c)
+		rs = append(rs, Exec(a, c))
+	}
+	height := int64(0)
+	begin := func() { height++; do(Call{Kind: "begin", Height: height}) }
+	end := func() { do(Call{Kind: "end", Height: height}); do(Call{Kind: "commit"}) }
+	late := func(k int) {
+		for i := 0; i < k && a.EONCounter > 0; i++ {
+			eon := 1 + uint64(g.R.Intn(int(a.EONCounter)))
+			if g.R.Chance(1, 3) {
+				eon = 1
+			}
+			raw, note := g.dkgTxFor(a, a.EONCounter, eon)
+			do(Call{Kind: "deliver", Tx: raw, Note: note})
+		}
+	}
+	begin()
+	cfg := shmsg.NewBatchConfig(0, g.U.Addrs[:n], uint64(t), 1)
+	for i := 0; i < t; i++ {
+		do(Call{Kind: "deliver", Tx: SignTx(g.U.Keys[i], ge.ChainID, g.nextNonce(), cfg), Note: "vote"})
+	}
+	end()
+	for e := 1; e < eons; e++ {
+		begin()
+		late(g.R.Intn(3))
+		for _, i := range g.R.Perm(n)[:t] {
+			do(Call{Kind: "deliver", Tx: SignTx(g.U.Keys[i], ge.ChainID, g.nextNonce(), shmsg.NewDKGResult(a.EONCounter, false)), Note: "dkg result failed"})
+		}
+		end()
+	}
+	for b := 0; b < 2; b++ {
+		begin()
+		late(3 + g.R.Intn(4))
+		end()
+	}
+	return h, rs, a
 }
 
 // DKGHistory: a history drawn from DKGTx (no dev mode, so that validator updates are real).
